@@ -71,6 +71,9 @@ type topoState struct {
 	// filterOn: the session has a host filter that rejects the addresses 10.0.0.x with
 	// x = 2 mod 3 (never the first contact point)
 	filterOn bool
+	// reconnTicker: the session retries nodes it holds for down (ReconnectInterval > 0): a
+	// node reported down that is in fact reachable comes back on its own
+	reconnTicker bool
 	dupFor      string
 	compares    int
 	// splitAddrs: nodes have distinct rpc and node-to-node addresses
@@ -180,6 +183,13 @@ func runTopo(e *Env) {
 		cfg.ConnectTimeout = 5 * time.Second
 	}
 	cfg.ReconnectInterval = 0
+	if tp.Chance(1, 3) {
+		// the session's reconnect ticker: every second it tries the nodes it holds for down
+		st.reconnTicker = true
+		cfg.ReconnectInterval = time.Second
+		k.Fault("topo.reconnect-ticker")
+	}
+	e.Note("reconnectTicker", st.reconnTicker)
 	cfg.ReconnectionPolicy = &gocql.ConstantReconnectionPolicy{MaxRetries: 1, Interval: 100 * time.Millisecond}
 	var inner gocql.HostSelectionPolicy
 	polName := ""
@@ -820,6 +830,9 @@ func (st *topoState) compare(when string) {
 		}
 	}
 	for id, h := range want {
+		if st.down[h.Addr] && st.reconnTicker && !st.unreach[h.Addr] {
+			continue // reported down, reachable, and retried every second: either state is right
+		}
 		if st.down[h.Addr] {
 			if offered[id] {
 				k.Violate("C16", "C16/down-node-offered", "%s: node %s was last reported DOWN, yet the selection policy offers it as up", when, h.Addr)
